@@ -22,6 +22,7 @@ CTXA_MACROS = [
     ('mtx', [('m', 'text'), 'm']),      # text-mode argument followed by an ordinary one
     ('mmx', [('m', 'math'), 'm']),      # math-mode argument followed by an ordinary one
     ('mch', [('m', 'chain-text')]),    # text-mode argument declared through a chain of deltas (mode switch first)
+    ('me', ['e{^_}', 'm']),             # embellishments (xparse 'e'), followed by a mandatory argument
     ('lvi', 'legacy-verb'),             # pylatexenc-2 style \verb-like macro with a leading optional argument
     ('setx', 'after-delta'),            # no arguments; its spec returns a parsing-state delta for what follows
 ]
